@@ -192,3 +192,96 @@ def k_phase_ren(eng, which):
 
     r = run_kernel(eng, "17.b/B/%s" % which, "17.b", "every month 1..12, every day 1..30", build, None, _scan_replay({"phase": 6, "ren-month": 7, "ren-day": 8}[which], which))
     return _finish(r, holder["ctx"]) if "ctx" in holder else r
+
+
+def k_year_nine_star(eng, which, lo=-1, hi=9999):
+    """flying nine star of the year: descends by one per year, 1864 (上元甲子) = 一白.  Decided on year windows (the whole range in one query is at
+    the solvers' 60 s limit); the function has period 180 in the year, every window spans two periods."""
+    holder = {}
+    src = "src/tyme/lunar.rs" if which == "LunarYear" else "src/tyme/sixtycycle.rs"
+
+    def build(eng):
+        fields = struct_fields(os.path.join(REPO, src), which)
+        fn = M.find_fn(eng.fns, "get_nine_star", "&" + which)
+        ctx = _ctx(eng, {which + "::get_twenty": ("get_twenty", "&" + which, None), which + "::get_sixty_cycle": ("get_sixty_cycle", "&" + which, None),
+                         "Twenty::get_sixty": ("get_sixty", "&Twenty", None)})
+        rec = Rec(ctx, "self", which)
+        year = rec.field(fields.index("year"), "isize")
+        holder.update(ctx=ctx)
+        paths = ctx.run(fn, [("refrec", rec)])
+        pre = ["(<= %s %s %d)" % (("(- %d)" % -lo) if lo < 0 else str(lo), year.s, hi)]
+        return ctx, paths, pre, (lambda p: [("descending", "(= %s (mod (- 1864 %s) 9))" % (p.ret.idx.s, year.s))]), (lambda p: _kind(p, "NineStar"))
+
+    def replay(eng, model):
+        try:
+            y = [int(v) for k, v in model.items() if k.startswith("|self.")][0]
+        except Exception as e:
+            return False, "model incomplete %r" % e
+        nat = eng.native("year_nine_star", y)
+        if nat == "PANIC":
+            return True, "panic"
+        a, b = [int(t) for t in nat.split()]
+        got = a if which == "LunarYear" else b
+        return (got != (1864 - y) % 9), "%s(%d) nine star index %d, expected %d" % (which, y, got, (1864 - y) % 9)
+
+    r = run_kernel(eng, "17.c/B/year-nine-star/%s/y%d-%d" % (which, lo, hi), "17.c", "every year %d..%d" % (lo, hi), build, None, replay)
+    return _finish(r, holder["ctx"]) if "ctx" in holder else r
+
+
+def k_hour_nine_star(eng, route):
+    """flying nine star of the hour: ascending between the winter- and the summer-solstice day, descending otherwise; first hour's star
+    by the day branch: 子午卯酉 一白 / 九紫, 辰戌丑未 四绿 / 六白, 寅申巳亥 七赤 / 三碧; one per double hour.  route: LunarHour | SixtyCycleHour"""
+    from .seasons import install, TermV
+    holder = {}
+
+    def build(eng):
+        fn = M.find_fn(eng.fns, "get_nine_star", "&" + route)
+        ctx = _ctx(eng, {route + "::get_index_in_day": ("get_index_in_day", "&" + route, None)})
+        rec = Rec(ctx, "self", route)
+        O = ctx.fresh_value("day_number", "isize")
+        year = ctx.fresh_value("year", "isize")
+        W = ctx.fresh_value("winter_solstice_day", "isize")
+        S = ctx.fresh_value("summer_solstice_day", "isize")
+        dp = ctx.fresh_value("day_pillar", "usize")
+        hour = ctx.fresh_value("hour", "usize")
+        holder.update(ctx=ctx)
+        day_rec = Rec(ctx, "the_solar_day", "SolarDay")
+
+        def termday(ykey, idx):
+            if ykey == year.s and idx == 0:
+                return W
+            if ykey == year.s and idx == 12:
+                return S
+            raise Unsupported("unexpected term (%s, %d)" % (ykey, idx))
+        install(ctx, day_rec, O, year, termday)
+        model = ctx.model
+        base = model.call
+        if route == "LunarHour":
+            fields = struct_fields(os.path.join(REPO, "src/tyme/lunar.rs"), "LunarHour")
+            rec.fields[fields.index("hour")] = hour
+
+        def call(c, fr, callee, args, path):
+            a = [model.deref(c, x) for x in args]
+            if callee in ("LunarDay::get_solar_day", "SolarTime::get_solar_day"):
+                return True, day_rec
+            if callee in ("LunarDay::get_sixty_cycle", "SixtyCycleHour::get_day"):
+                return True, Obj("SixtyCycle", dp)
+            if callee == "SolarTime::get_hour":
+                return True, hour
+            return base(c, fr, callee, args, path)
+        model.call = call
+        paths = ctx.run(fn, [("refrec", rec)])
+        pre = ["(<= 0 %s 23)" % hour.s, "(<= 0 %s 59)" % dp.s, "(<= 170 (- %s %s) 190)" % (S.s, W.s), "(<= 2 %s 9998)" % year.s]
+        # hour index in the day: 23:00 counts as the first double hour of the NEXT day in the instant view (index 0), as index 12 -> 0 on the lunar-hour route
+        hi = "(mod (div (+ %s 1) 2) 12)" % hour.s
+        asc = "(and (<= %s %s) (< %s %s))" % (W.s, O.s, O.s, S.s)
+        db = "(mod %s 12)" % dp.s
+        first_asc = "(ite (= (mod %s 3) 0) 0 (ite (= (mod %s 3) 1) 3 6))" % (db, db)
+        first_desc = "(ite (= (mod %s 3) 0) 8 (ite (= (mod %s 3) 1) 5 2))" % (db, db)
+
+        def posts(p):
+            return [("star", "(= %s (ite %s (mod (+ %s %s) 9) (mod (- %s %s) 9)))" % (p.ret.idx.s, asc, first_asc, hi, first_desc, hi))]
+        return ctx, paths, pre, posts, lambda p: _kind(p, "NineStar")
+
+    r = run_kernel(eng, "17.f/B/hour-nine-star/%s" % route, "17.f", "every day relative to the two solstice days, all 60 day pillars x 24 hours", build, None, None)
+    return _finish(r, holder["ctx"]) if "ctx" in holder else r
